@@ -62,12 +62,13 @@ def reference(world, given=None):
             continue
         try:
             args = [ref(d, k) for d, k in n.get("deps", [])]
+            kws = {name: ref(d, k) for name, (d, k) in n.get("kwdeps", {}).items()}
         except Exception:
             val[nid] = None
             status[nid] = "badindex"
             status["__kf_index__"] = f"{nid} indexes the None result of a deactivated node"
             continue
-        val[nid] = world.value_of(nid, args)
+        val[nid] = world.value_of(nid, args, kws)
         status[nid] = "runs"
     return val, status
 
